@@ -8,6 +8,7 @@ pub mod c07;
 pub mod c08a;
 pub mod c08bc;
 pub mod c09;
+pub mod c09e;
 pub mod c10;
 pub mod c11;
 pub mod c12;
